@@ -41,6 +41,8 @@ def Fires (m : Mon) (p o : Obs) (e : Ev) : Clause → Prop
   | .c05OdTwice => 1 < o.od
   | .c05ClosedBusy => o.tc = 1 ∧ p.tc = 0 ∧ o.idle = false
   | .c05DoneBusy => o.done = true ∧ o.idle = false
+  | .c05ClosedRunning r => o.tc = 1 ∧ p.tc = 0 ∧ PTok.h r ∈ o.parked
+  | .c05DoneRunning r => o.done = true ∧ PTok.h r ∈ o.parked
   | .c05LateDispatch r => ∃ q, m.reqs[r]? = some q ∧ q.a2AfterShutdown = true ∧ PTok.h r ∈ o.parked
   | .c05Stuck _ | .c02Dropped _ | .c02NoAttempt _ => False
 
@@ -280,6 +282,34 @@ theorem chkLateDispatch_fires (h : chkLateDispatch m o = some c) : Fires m p o e
     exact ⟨q, hq, hc.1, hc.2⟩
   · cases hf
 
+theorem runningHandler_mem {r : Nat} (h : o.runningHandler = some r) : PTok.h r ∈ o.parked := by
+  obtain ⟨t, ht, hf⟩ := List.exists_of_findSome?_eq_some h
+  cases t <;> simp at hf
+  subst hf; exact ht
+
+theorem chkClosedRunning_fires (h : chkClosedRunning p o = some c) : Fires m p o e c := by
+  unfold chkClosedRunning at h; split at h
+  · rename_i hc
+    simp only [Bool.and_eq_true, beq_iff_eq] at hc
+    cases hr : o.runningHandler with
+    | none => simp [hr] at h
+    | some r =>
+      simp only [hr, Option.map_some, Option.some.injEq] at h
+      subst h
+      exact ⟨hc.1, hc.2, runningHandler_mem hr⟩
+  · cases h
+
+theorem chkDoneRunning_fires (h : chkDoneRunning o = some c) : Fires m p o e c := by
+  unfold chkDoneRunning at h; split at h
+  · rename_i hc
+    cases hr : o.runningHandler with
+    | none => simp [hr] at h
+    | some r =>
+      simp only [hr, Option.map_some, Option.some.injEq] at h
+      subst h
+      exact ⟨hc, runningHandler_mem hr⟩
+  · cases h
+
 /-- `chkAll` reports a clause only under that clause's firing condition. -/
 theorem chkAll_fires (h : chkAll m p o e = some c) : Fires m p o e c := by
   unfold chkAll at h
@@ -317,7 +347,11 @@ theorem chkAll_fires (h : chkAll m p o e = some c) : Fires m p o e c := by
   · exact chkClosedIdle_fires h
   rcases orElse_some h with h | h
   · exact chkDoneIdle_fires h
-  exact chkLateDispatch_fires h
+  rcases orElse_some h with h | h
+  · exact chkLateDispatch_fires h
+  rcases orElse_some h with h | h
+  · exact chkClosedRunning_fires h
+  exact chkDoneRunning_fires h
 
 end checks
 
@@ -357,6 +391,16 @@ def P_c05ClosedBusy (tr : Trace) : Prop :=
 def P_c05DoneBusy (tr : Trace) : Prop :=
   ∀ k, k < tr.length → (obsAt tr k).done = true → (obsAt tr k).idle = true
 
+/-- "Close lets handlers that are already running run to completion, and closes the transport only
+after they have returned": at the step that closes the transport no handler is running (the harness
+sees a running handler as a goroutine parked inside the scripted Handler, token `H:r<r>`). -/
+def P_c05ClosedRunning (tr : Trace) : Prop :=
+  ∀ k, k < tr.length → (before tr k).tc = 0 → (obsAt tr k).tc = 1 → ∀ r, PTok.h r ∉ (obsAt tr k).parked
+
+/-- `done` is closed (Close and every Wait return) only when no handler is running. -/
+def P_c05DoneRunning (tr : Trace) : Prop :=
+  ∀ k, k < tr.length → (obsAt tr k).done = true → ∀ r, PTok.h r ∉ (obsAt tr k).parked
+
 /-- A request whose A2 section ran after shutdown began never has its handler running. -/
 def P_c05LateDispatch (tr : Trace) : Prop :=
   ∀ i r, evAt tr i = some (.a2 r) → (before tr i).shuttingDown = true →
@@ -391,6 +435,22 @@ theorem sound_c05ClosedBusy (tr : Trace) (l : Label) (o : Obs)
   have := hP tr.length (len_lt_snoc _ _) (by rw [before_snoc_len]; exact h2) (by rw [obsAt_snoc_len]; exact h1)
   rw [obsAt_snoc_len] at this
   simp [h3] at this
+
+theorem sound_c05ClosedRunning (tr : Trace) (l : Label) (o : Obs) (r : Nat)
+    (h : (monStepT (monAfter {} tr) l o).2 = some (.c05ClosedRunning r)) : ¬ P_c05ClosedRunning (tr ++ [(l, o)]) := by
+  obtain ⟨m, _, h1, h2, h3⟩ := fires_of_step h
+  intro hP
+  have := hP tr.length (len_lt_snoc _ _) (by rw [before_snoc_len]; exact h2) (by rw [obsAt_snoc_len]; exact h1) r
+  rw [obsAt_snoc_len] at this
+  exact this h3
+
+theorem sound_c05DoneRunning (tr : Trace) (l : Label) (o : Obs) (r : Nat)
+    (h : (monStepT (monAfter {} tr) l o).2 = some (.c05DoneRunning r)) : ¬ P_c05DoneRunning (tr ++ [(l, o)]) := by
+  obtain ⟨m, _, h1, h2⟩ := fires_of_step h
+  intro hP
+  have := hP tr.length (len_lt_snoc _ _) (by rw [obsAt_snoc_len]; exact h1) r
+  rw [obsAt_snoc_len] at this
+  exact this h2
 
 theorem sound_c05DoneBusy (tr : Trace) (l : Label) (o : Obs)
     (h : (monStepT (monAfter {} tr) l o).2 = some .c05DoneBusy) : ¬ P_c05DoneBusy (tr ++ [(l, o)]) := by
@@ -837,6 +897,10 @@ example : P_c05ClosedBusy good05 := by
   intro k hk; rcases k with _|_|_|_|k <;> simp [obsAt, before, good05, Obs.idle] at hk ⊢
 example : P_c05DoneBusy good05 := by
   intro k hk; rcases k with _|_|_|_|k <;> simp [obsAt, good05, Obs.idle] at hk ⊢
+example : P_c05ClosedRunning good05 := by
+  intro k hk; rcases k with _|_|_|_|k <;> simp [obsAt, before, good05] at hk ⊢
+example : P_c05DoneRunning good05 := by
+  intro k hk; rcases k with _|_|_|_|k <;> simp [obsAt, good05] at hk ⊢
 example : P_c05LateDispatch good05 := by
   intro i r h hb j hij hj
   rcases j with _|_|_|_|j <;> simp [obsAt, good05] at hj ⊢
@@ -984,6 +1048,11 @@ example : ¬ P_c05TcTwice ([] ++ [(.eclose, {tc := 2})]) := sound_c05TcTwice _ _
 example : ¬ P_c05OdTwice ([] ++ [(.eclose, {od := 2})]) := sound_c05OdTwice _ _ _ (by decide)
 example : ¬ P_c05ClosedBusy ([] ++ [(.eclose, {tc := 1, hr := true})]) := sound_c05ClosedBusy _ _ _ (by decide)
 example : ¬ P_c05DoneBusy ([] ++ [(.eclose, {done := true, inc := 1})]) := sound_c05DoneBusy _ _ _ (by decide)
+-- the under-counting implementation: `in=0` (it looks idle to `chkClosedIdle`) while the handler of r0 runs
+example : ¬ P_c05ClosedRunning ([] ++ [(.cl1, {closing := true, tc := 1, parked := [.h 0]})]) :=
+  sound_c05ClosedRunning _ _ _ 0 (by decide)
+example : ¬ P_c05DoneRunning ([] ++ [(.cl1, {closing := true, done := true, parked := [.h 0]})]) :=
+  sound_c05DoneRunning _ _ _ 0 (by decide)
 example : ¬ P_c05LateDispatch ([(.read (.call 7), {closing := true})] ++ [(.a2 0, {closing := true, parked := [.h 0]})]) :=
   sound_c05LateDispatch _ _ _ 0 (by decide)
 example : ¬ P_c05WriteCause ([(.read (.call 7), ({} : Obs))] ++ [(.d1, {x := [(0, .write)]})]) :=
